@@ -262,17 +262,36 @@ func (r *Rediaron) BatchPut(ctx context.Context, data map[string]string) error {
 	return nil
 }
 
+// batchCreateAndDecrScript puts all keys and decrements the counter in one step,
+// it refuses when the counter key does not exist.
+var batchCreateAndDecrScript = redis.NewScript(`
+if redis.call("EXISTS", KEYS[1]) == 0 then
+	return 0
+end
+redis.call("DECR", KEYS[1])
+for i = 2, #KEYS do
+	redis.call("SET", KEYS[i], ARGV[i-1])
+end
+return 1
+`)
+
 // BatchCreateAndDecr decr processing and add workload
+// same as etcd: the processing key must exist, workload keys are put
 func (r *Rediaron) BatchCreateAndDecr(ctx context.Context, data map[string]string, decrKey string) (err error) {
-	batchCreateAndDecr := func(pipe redis.Pipeliner) error {
-		pipe.Decr(ctx, decrKey)
-		for key, value := range data {
-			pipe.SetNX(ctx, key, value, 0)
-		}
-		return nil
+	keys, values := []string{decrKey}, make([]interface{}, 0, len(data))
+	for key, value := range data {
+		keys = append(keys, key)
+		values = append(values, value)
 	}
-	_, err = r.cli.TxPipelined(ctx, batchCreateAndDecr)
-	return
+
+	done, err := batchCreateAndDecrScript.Run(ctx, r.cli, keys, values...).Int()
+	if err != nil {
+		return err
+	}
+	if done != 1 {
+		return errors.Wrap(types.ErrKeyNotExists, decrKey)
+	}
+	return nil
 }
 
 // BatchDelete is wrapper to adapt etcd batch delete
